@@ -12,5 +12,8 @@ Rec ==
   ELSE [kind |-> "array", shape |-> st.shape, ax |-> st.ax, flat |-> out.flat,
         oshape |-> out.r.shape, oflat |-> out.r.flat]
 Emit == CSVWrite("%1$s", <<ToJson(Rec)>>, IOEnv.GEN_OUT)
-EmitCase == out.kind \in {"vec", "array"} => Emit
+\* the dtype rule as a table (emitted once, at the root)
+DtypeRec == [kind |-> "dtypes", table |-> [d \in RealDtypes \cup ComplexDtypes |-> Outcome(d)]]
+EmitCase == /\ out.kind \in {"vec", "array"} => Emit
+            /\ st.kind = "root" => CSVWrite("%1$s", <<ToJson(DtypeRec)>>, IOEnv.GEN_OUT)
 =============================================================================
